@@ -94,8 +94,44 @@ def layer_text(layer, layer_id, extra=()):
     return "\n".join(L)
 
 
+def bracket_plan(model):
+    """Designspace-style rules expressed the Glyphs way: for every (rule, condition set, substitution A -> alt) the
+    outlines of `alt` become bracket layers of A (one per master) that apply inside the box.  Bounds are integers in a
+    Glyphs file.  Returns (per-glyph list of (box, alt name), the rules as the manifest states them for this source:
+    one rule per emitted (A, box, alt), in emission order)."""
+    axes = model["axes"]
+    per_glyph, man_rules = {}, []
+    for rule in (model.get("rules") or {}).get("rules", []):
+        for conds in rule["sets"]:
+            box = {}
+            for c in conds:
+                lo = None if c["min"] is None else int(round(c["min"]))
+                hi = None if c["max"] is None else int(round(c["max"]))
+                plo, phi = box.get(c["tag"], (None, None))
+                if lo is not None:
+                    plo = lo if plo is None else max(plo, lo)
+                if hi is not None:
+                    phi = hi if phi is None else min(phi, hi)
+                box[c["tag"]] = (plo, phi)
+            for a in axes:  # a bound on the axis limit is no bound (the compiler reads a missing bound as the limit)
+                if a["tag"] in box:
+                    plo, phi = box[a["tag"]]
+                    box[a["tag"]] = (None if plo is not None and plo <= a["min"] else plo, None if phi is not None and phi >= a["max"] else phi)
+            key = tuple((a["tag"],) + box.get(a["tag"], (None, None)) for a in axes)
+            for base, alt in rule["subs"]:
+                have = per_glyph.setdefault(base, [])
+                if any(k == key for k, _a in have):
+                    continue  # one alternate per (glyph, box): a second one would be merged into the same bracket glyph
+                have.append((key, alt))
+                man_rules.append({"sets": [[{"axis": a["name"], "tag": t, "min": lo, "max": hi} for a, (t, lo, hi) in zip(axes, key) if lo is not None or hi is not None]],
+                                  "subs": [[base, alt]]})
+    return per_glyph, man_rules
+
+
 def render(model, outdir):
     os.makedirs(outdir, exist_ok=True)
+    brackets, bracket_rules = bracket_plan(model) if model["axes"] else ({}, [])
+    by_name = {g["name"]: g for g in model["glyphs"]}
     fam = model["family"]
     axes = model["axes"]
     full = [m for m in model["masters"] if m["layer"] is None]
@@ -109,6 +145,8 @@ def render(model, outdir):
     params = []
     if axes:
         params.append("{\nname = \"Variable Font Origin\";\nvalue = %s;\n}" % ids[full[0]["name"]])
+    if brackets and (model["rules"] or {}).get("processing") == "last":
+        params.append("{\nname = \"Feature for Feature Variations\";\nvalue = rclt;\n}")
     order = model["lib"].get("public.glyphOrder")
     if order:
         params.append("{\nname = glyphOrder;\nvalue = (\n%s\n);\n}" % ",\n".join(q(n) for n in order))
@@ -196,6 +234,14 @@ def render(model, outdir):
                 coords = ",\n".join(num(v) for v in loc[:ncoords])
                 extra = [f"associatedMasterId = {ids[assoc['name']]};", "attr = {", "coordinates = (", coords, ");", "};"]
                 ls.append(layer_text(layer, f"brace-{g['name']}-{k}", extra) .replace("layerId = ", "layerId = ", 1))
+        for bi, (key, alt) in enumerate(brackets.get(g["name"], [])):
+            rules_txt = ",\n".join("{\n" + (f"max = {hi};\n" if hi is not None else "") + (f"min = {lo};\n" if lo is not None else "") + "}" for _t, lo, hi in key)
+            for m in full:
+                layer = by_name[alt]["layers"].get(m["name"])
+                if layer is None:
+                    continue
+                extra = [f"associatedMasterId = {ids[m['name']]};", "attr = {", "axisRules = (", rules_txt, ");", "};"]
+                ls.append(layer_text(layer, f"bracket-{g['name']}-{bi}-{ids[m['name']]}", extra))
         G.append(",\n".join(ls))
         G.append(");")
         if c == "mark":
@@ -252,6 +298,9 @@ def render(model, outdir):
         f.write("\n".join(L) + "\n")
     man = dict(model)
     man["format"] = "glyphs"
+    if brackets:
+        man["rules"] = {"processing": (model["rules"] or {}).get("processing", "first"), "rules": bracket_rules}
+        man["bracket"] = True
     with open(os.path.join(outdir, "manifest.json"), "w") as f:
         json.dump(man, f, indent=1)
     return path
